@@ -476,6 +476,11 @@ def packing_per_file(prog: Program, rep: Report) -> None:
         reset = any(isinstance(st, ast.Assign) and unparse(st.targets[0]) == "self.scaled" for st in stmts)
         per_key = [st for st in stmts if isinstance(st, ast.Assign) and unparse(st.targets[0]).startswith("self.scaled[")]
         ok = reset and bool(per_key)
+        # a variable marked as packed on this path gets both of its own attributes from the dataset
+        marked = any(isinstance(st, ast.Assign) and unparse(st.targets[0]).startswith("self.scaled[") and unparse(st.value) == "True" for st in stmts) or any("scale_factor" in unparse(t) and taken for t, taken in p.conds())
+        if marked:
+            both = all(any(isinstance(st, ast.Assign) and unparse(st.targets[0]).startswith(f"self.{a}[") and a in unparse(st.value) for st in stmts) for a in ("scale_factor", "add_offset"))
+            rep.check(rule, fi.qual, f"path {p.describe()}: a packed variable gets its scale_factor and add_offset", both, what_bad="a variable is marked as packed but its scale_factor / add_offset are not read from the file: the unpacking has nothing (or another file's values) to work with", what_ok="both read", loc=fi.loc())
         rep.check(rule, fi.qual, f"path {p.describe()}: packing info rebuilt for the file just opened", ok, what_bad="a forcing file is installed without reading its own scale_factor/add_offset: fields of a later file in a multi-file run are decoded with another file's packing (files repacked separately, packed and float files mixed)", what_ok="scaled / scale_factor / add_offset rebuilt", loc=fi.loc())
     if n == 0:
         raise AnalysisError("open_forcing_file: no path installs self._nc")
@@ -625,6 +630,8 @@ def run(prog: Program, rep: Report, tier: str) -> None:
 
     share(prog, rep, "C01", ("R01.1", "R01.4"), "R02.8", "the schemes hand the particle's own (x, y, z) to the velocity sampler, in that order", 3)
     share(prog, rep, "C17", ("R17.1",), "R02.9", "the grid arrays are read at the particle's own cell (row from y, column from x, subgrid offsets of the same axis)", 10, only=lambda o: "ROMS.Grid." in o.func or "ROMS.Forcing.update" in o.construct or "z2s" in o.func)
+    rep.rule("R02.10", "the particle's (X, Y, Z) reach the schemes and the samplers in that order (shared with C01 R01.9)", 10)
+    align.argument_order(prog, rep, "R02.10")
 
 
 
